@@ -389,7 +389,7 @@ func (s *sess) checkMakeReject(rule string) {
 }
 
 func runC14(c *core.Ctx, o Options) {
-	c.Explanation = "TestRequest handler of package session, all acyclic SSA paths: rule Q1 — every path with Unmarshal ok and the logged-on test true contains exactly one send, of kind Heartbeat, " +
+	c.Explanation = "TestRequest handler of package session, all acyclic SSA paths: rule Q0 — exactly one handler is registered for TestRequest, by a function that runs once per session (not in a loop, not reachable from any handler, event callback, timer callback or goroutine: the pool only appends, so a second registration would answer twice), and it parses the message first; rule Q1 — every path with Unmarshal ok and the logged-on test true contains exactly one send, of kind Heartbeat, " +
 		"no state change and no cancellation; Q2 — the operand of SetFieldTestReqID on the message that is sent is TestReqID() of the very builder the handler unmarshalled its input into; " +
 		"Q3 — the reply is sent synchronously in the dispatch goroutine (no go statement on the path, C04.F5 shows dispatch is sequential), hence before any later inbound message is handled; " +
 		"Q4 — byte identity of the ID rests on the String value codec being the identity conversion in both directions (checked on fix.String) and on the decoder handing FromBytes exactly the bytes between the matched 'tag=' and the next delimiter (checked on scanKeyValue). " +
@@ -403,6 +403,8 @@ func runC14(c *core.Ctx, o Options) {
 		return
 	}
 	hn := "inbound:TestRequest"
+	s.checkRegisteredOnce("Q0", true, "TestRequest")
+	checkUnboundedFieldRead(c, "Q4")
 	traces := s.tr.Traces(fn, s.m.AllStates)
 	target := s.checkParseFirst("Q0", "TestRequest", fn, traces)
 	sl := s.m.Set("SuccessfulLogged")
@@ -491,6 +493,90 @@ func runC14(c *core.Ctx, o Options) {
 	// Q3b: nothing between the handler and the outbound queue runs in another goroutine
 	checkSendChainNoSpawn(c, s, "Q3")
 	c.Extra["paths"] = len(traces)
-	c.RuleMin = map[string]int{"Q0": 3, "Q1": 1, "Q2": 1, "Q3": 7, "Q4": 5, "Q5": 1}
+	c.RuleMin = map[string]int{"Q0": 4, "Q1": 1, "Q2": 1, "Q3": 7, "Q4": 7, "Q5": 1}
 	c.MinObl = 7
+}
+
+// checkRegisteredOnce: the single registration of the handler for key is made by a function that runs once per session — a
+// top-level function, outside any loop, not reachable through static calls from a registered handler, an event or AfterFunc
+// callback or a spawned goroutine (those run once per message / logon / event, and the handler pool only appends).
+func (s *sess) checkRegisteredOnce(rule string, in bool, key string) {
+	c := s.c
+	hs := s.handlers(in, key, "")
+	if len(hs) != 1 {
+		return // reported by the anchor of one()
+	}
+	r := hs[0]
+	reach := map[*ssa.Function]string{}
+	var work []*ssa.Function
+	for _, rt := range s.roots() {
+		switch rt.Cat {
+		case "inbound", "outbound", "event", "afterfunc", "goroutine":
+			if _, ok := reach[rt.Fn]; !ok {
+				reach[rt.Fn] = rt.Cat + ":" + rt.Key
+				work = append(work, rt.Fn)
+			}
+		}
+	}
+	for len(work) > 0 {
+		f := work[0]
+		work = work[1:]
+		an.AllInstrs(f, func(i2 ssa.Instruction) {
+			var next *ssa.Function
+			if cc := an.CallOf(i2); cc != nil {
+				if cal := an.StaticCallee(cc); cal != nil && cal.Pkg == s.m.Pkg {
+					next = cal
+				}
+			}
+			if mc, ok := i2.(*ssa.MakeClosure); ok {
+				next, _ = mc.Fn.(*ssa.Function)
+			}
+			if next != nil {
+				if _, ok := reach[next]; !ok {
+					reach[next] = reach[f]
+					work = append(work, next)
+				}
+			}
+		})
+	}
+	ob := c.Ob(rule, r.Parent.Name(), "the "+key+" handler is registered once per session", r.Site.Pos())
+	switch {
+	case r.Parent.Parent() != nil:
+		ob.Fail("the handler is registered inside the function literal %s: it is added again each time that literal runs, and each copy answers", r.Parent.Name())
+	case inLoop(r.Site.Block()):
+		ob.Fail("the handler is registered inside a loop")
+	case reach[r.Parent] != "":
+		ob.Fail("the handler is registered in %s, which is reached from %s: it is added again on every such call (the pool only appends), so one message is then handled — and answered — several times", r.Parent.Name(), reach[r.Parent])
+	default:
+		ob.Ok("registered in %s, which no handler, callback or goroutine calls", r.Parent.Name())
+	}
+}
+
+// checkUnboundedFieldRead: the connection reader takes fields off the stream with bufio.Reader.ReadBytes, the one bufio primitive
+// that returns a whole field of any length in memory of its own (ReadSlice/ReadLine fail or truncate beyond the buffer size and
+// alias the buffer; Peek/Read return fragments). A necessary condition for "any length" of a field value such as TestReqID.
+func checkUnboundedFieldRead(c *core.Ctx, rule string) {
+	rr := c.Func("", "Conn.runReader")
+	if !c.Anchor("connection reader", rr != nil, "(*Conn).runReader", posOf(rr)) {
+		return
+	}
+	n := 0
+	for _, fn := range an.WithAnon(rr) {
+		an.AllInstrs(fn, func(in ssa.Instruction) {
+			cc := an.CallOf(in)
+			if cc == nil {
+				return
+			}
+			cal := an.StaticCallee(cc)
+			if cal == nil || cal.Pkg == nil || cal.Pkg.Pkg.Path() != "bufio" || cal.Signature.Recv() == nil || !an.TypeIs(cal.Signature.Recv().Type(), "bufio", "Reader") {
+				return
+			}
+			if strings.HasPrefix(cal.Name(), "Read") || cal.Name() == "Peek" {
+				n++
+				c.Check(cal.Name() == "ReadBytes" || cal.Name() == "ReadString", rule, fn.Name(), "fields are read whole, whatever their length", in.Pos(), "bufio.Reader.ReadBytes",
+					"the stream is read with bufio.Reader."+cal.Name()+": a field longer than the reader's buffer (4096 bytes by default) fails with ErrBufferFull or arrives in pieces, so a long TestReqID is not echoed")
+			}
+		})
+	}
+	c.Check(n >= 1, rule, "Conn.runReader", "read sites found", rr.Pos(), fmt.Sprint(n), "no bufio read in the connection reader (anchor moved)")
 }
